@@ -345,6 +345,50 @@ pub fn cmd_mut(args: &[String]) {
             }
         }
     }
+    // character / string-length: every value of the replacement / extension byte, on strings made
+    // of the characters at the ends of the printable range (the gate draw is 8 zero bytes at
+    // rate 1.0; then come the index / branch draws, then the byte under test)
+    for b in 0..=255u8 {
+        for (mi, method, value, pre) in [
+            (4usize, "string", "7e7e7e", vec![0u8]),        // "~~~", idx 0
+            (4, "string", "212121", vec![2]),              // "!!!", idx 2
+            (4, "string", "7e", vec![]),                   // "~" (single char: no idx byte drawn)
+            (4, "bytes", "00ff7f", vec![1]),
+            (3, "string", "6162", vec![1, 0]),             // stringlen: branch 1 (extend), extra_len draw 0 -> 1
+            (3, "bytes", "6162", vec![1, 0]),
+        ] {
+            let mut ent = vec![0u8; 8];
+            ent.extend_from_slice(&pre);
+            ent.push(b);
+            ent.extend_from_slice(&[b; 4]);
+            let args: Vec<String> = vec![
+                format!("kind={}", MUT_NAMES[mi]),
+                "unsafe=0".to_string(),
+                format!("method={}", method),
+                format!("value={}", value),
+                format!("rate={:016x}", rates[1]),
+                format!("ent=arb:{}", hex(&ent)),
+            ];
+            let r = std::panic::catch_unwind(|| replay_mut(&args));
+            if r.is_err() {
+                println!("mut {} result=panic left=0", args.join(" "));
+            }
+        }
+        // type confusion (unsafe, rate 1.0) on an emission that starts with every possible byte
+        let ent: Vec<u8> = vec![0u8; 8].into_iter().chain([b % 8, 1, 2, 3, 4, 5, 6, 7, 8]).collect();
+        let args: Vec<String> = vec![
+            "kind=typeconfusion".to_string(),
+            "unsafe=1".to_string(),
+            "method=post".to_string(),
+            format!("value=8002+{:02x}01", b),
+            format!("rate={:016x}", rates[1]),
+            format!("ent=arb:{}", hex(&ent)),
+        ];
+        let r = std::panic::catch_unwind(|| replay_mut(&args));
+        if r.is_err() {
+            println!("mut {} result=panic left=0", args.join(" "));
+        }
+    }
     for i in 0..n {
         let mi = (i % 7) as usize;
         let unsafe_m = rng.below(3) == 0;
